@@ -33,14 +33,11 @@ CLAIMS = {
              "finds it; the path rules hold for every argument tuple and call style because they are facts about all CFG paths.",
         note="Trusts SymPy's equivalent_dims/is_dimensionless and inspect.signature.bind. One recorded known finding (guard `position_vector` "
              "pinned by an existing test).",
-        technique="decorator-table vs signature set comparison; CFG dominators, path conditions and backward slices on the gate code", ref="DESIGN.md §2 C04"),
+        technique="decorator-table vs signature set comparison; abstract evaluation of the gate functions on gate objects against the outcome table; CFG dominators and path conditions on the wrappers", ref="DESIGN.md §2 C04"),
     "C08": dict(
-        text="Decision-dependence facts A1-A7 of the test oracle (dominance of the dimension assertion, conjunction of re/im verdicts, "
-             "tolerance constant and default formula, unchanged forwarding of tolerances, strict zip). Every weakening of the oracle keeps "
-             "all 2568 tests green by construction, so only an analysis of approx.py itself can notice; the facts are dataflow facts, not "
-             "text, so renaming/reordering/extracting does not fire.",
+        text="core/approx.py is evaluated abstractly with symbolic numbers, quantities and tolerances; `x == pytest.approx(y, rel=, abs=)` becomes a symbolic verdict and wherever the code branches on a verdict both truth values are explored, so each function's result is a truth table over its verdicts whatever the shape of the code. Decided: the dimension assertion on (lhs, rhs) is passed on every run (A1); the result is the conjunction of the re- and im-comparisons of the operands' SI values (A2); the default relative tolerance is the constant 0.001, re-bound nowhere (A3); rel/abs defaults and an exact comparison for infinite operands (A4); tolerances and dimension reach the number comparison unchanged through all four functions (A5); assert_equal fails exactly when the verdict is false and wraps only bare operands (A6); every component pair of a vector is asserted and unequal lengths are refused (A7). Every weakening of the oracle keeps all 2568 tests green by construction, so only an analysis of approx.py itself can notice.",
         note="Trusts pytest.approx's documented contract and sympy re/im. Floating-point behaviour exactly at the tolerance boundary is not decided.",
-        technique="CFG dominators + reaching definitions + backward slices (decision dependence)", ref="DESIGN.md §2 C08"),
+        technique="abstract evaluation of the oracle's source with symbolic verdicts, all truth assignments explored", ref='DESIGN.md §2 C08'),
     "C03": dict(
         text="Static necessary conditions, exhaustive over the package: the name-dependency graph between all 846 modules is acyclic and an "
              "exact simulation of CPython's import algorithm, started from every module as the first import of a fresh interpreter, finds "
@@ -57,22 +54,13 @@ CLAIMS = {
              "assumed importable.",
         technique="import-graph SCCs + simulated import algorithm over static imports; module-level effect scan; arity/attribute resolution by abstract interpretation", ref="DESIGN.md §2 C03"),
     "C05": dict(
-        text="Structural necessary conditions of a compositional collector on collect_quantity.py and Quantity.__init__: children coverage "
-             "(every child is passed, itself, to the recursive collector on every path), complete and correctly ordered first-match dispatch, "
-             "refusal discipline (equivalent_dims + any-dimension escape for both operands, dimensionless exponent/arguments, unevaluated "
-             "derivative, free symbols, complex(scale) before registration, the registered scale untouched by anything but the collector), "
-             "homomorphism shape of the Mul/Add/Pow handlers, and use of every collected factor on every path of its iteration. They hold for "
-             "all expression trees because they are facts about every path of each handler.",
-        note="The value-level statement (scale factor = SI value, dimension = dimensional product, for all trees) is not decided; only "
-             "operator kinds and data dependence are examined. Trusts SymPy's expression-tree API.",
-        technique="abstract child-set evaluation + path conditions + operator sets of backward slices over the dispatch handlers", ref="DESIGN.md §2 C05/C06"),
+        text="collect_quantity.py is evaluated abstractly on ~470 expression trees (every node kind the property names at depth one and two, over quantities of several dimensions, a zero-valued quantity, a prefix, exact and floating point numbers, a free symbol, an unevaluated derivative); each answer - (scale factor term, dimension) or a refusal - is compared with the property: the scale factor is the value of the expression on the leaves' SI values (exact normal form), the dimension the dimensional product of the parts with exponents taken exactly, and a tree is refused exactly when a sum/min/max has terms of inequivalent dimensions (zero-valued terms aside), an exponent or function argument is dimensional, or a symbol/derivative remains. Quantity.__init__ is evaluated on gate objects: the registered scale is the collected one itself, the dimension the explicit-or-collected one, nothing is registered for a non-numeric scale, a contradicting explicit dimension is refused. Only answers are judged, so any code shape with this meaning passes.",
+        note="Decided for the tree family, not for all SymPy expression kinds; SymPy's own arithmetic on numeric scale factors is trusted. The any-dimension predicate is decided by K5.",
+        technique="abstract evaluation of the collector's source on a family of expression trees, answers compared with a specification function in an exact normal form", ref='DESIGN.md §2 C05/C06'),
     "C06": dict(
-        text="The same structural rules on the symbolic collector (collect_expression.py): children coverage including the numeric/"
-             "quantity/symbolic split and the differentiated operand and variables of Derivative, dispatch table, common-dimension helper "
-             "(refusal + any-dimension escapes), dimensionless exponent, homomorphism shape, and Symbolic wrappers taking their dimension "
-             "from the collector.",
-        note="The commuting diagram with evaluation on quantities is not decided. One defect found and repaired (Derivative of a compound operand).",
-        technique="abstract child-set evaluation + path conditions + operator sets of backward slices over the dispatch handlers", ref="DESIGN.md §2 C05/C06"),
+        text="collect_expression.py is evaluated abstractly on ~1100 expression trees over dimensioned symbols, applied functions, elements of indexed symbols, quantities (one zero-valued) and numbers, every node kind of the property (products, powers, sums, min/max, absolute value, derivatives, elementary functions) at depth one and two; each answer is compared with the property: the dimension is the combination of the leaves' declared dimensions (exponents exactly, a derivative divides by its variables' dimensions), the returned expression is value-equal to the input, and an error is reported exactly for inequivalent sum/min/max terms (zero-valued excepted) or a dimensional exponent. Symbolic.__init__ stores the inferred dimension of its argument.",
+        note='The run-time clause (replace symbols by quantities, construct the quantity) follows from S1 here and S1 of C05 for the tree family, not for all SymPy expression kinds.',
+        technique="abstract evaluation of the collector's source on a family of expression trees, answers compared with a specification function in an exact normal form", ref='DESIGN.md §2 C05/C06'),
     "C07": dict(
         text="convert_to is decided to be the ratio value.scale_factor/target.scale_factor (exact monomial normal form) guarded by the dimension "
              "assertion on every path - composition, inversion and SI agreement then follow algebraically given C05; the SI base table is "
